@@ -63,8 +63,10 @@ func keyForPrefixedStringMapsAsKey(buf []byte, prefix string, maps ...map[string
 	}
 
 	var lastKey string // last key written to the buffer
-	for _, k := range keys {
-		if len(lastKey) > 0 {
+	for i, k := range keys {
+		// n.b. Test the position, not the content of the last key: the empty
+		//      string is a valid key too.
+		if i > 0 {
 			if k == lastKey {
 				// Already wrote this key.
 				continue
